@@ -273,7 +273,11 @@ theorem stepRaw_calls {s : SeqState} {op : Op} (hs : selfStored op = true)
     refine store_ok (Fr_markNonEmpty ?_) h
     repeat' split
     all_goals first | exact Fr_fail s _ | exact Fr_addCore s _ _ _ _
-  | delay d n atRest => exact store_ok (Fr_delayCore s d n atRest) h
+  | delay d n atRest =>
+    refine store_ok ?_ h
+    rcases delayChecked_cases s d n atRest with hc | ⟨e, hc⟩ <;> rw [hc]
+    · exact Fr_delayCore s d n atRest
+    · exact Fr_fail s e
   | align chs atRest =>
     simp only [stepRaw] at h ⊢
     refine store_ok ?_ h
